@@ -23,6 +23,7 @@ func init() {
 		ruleF10(c, "C05.F10")
 		ruleS4(c, "C05.F11")
 		ruleColdRead(c, "C05.F12")
+		ruleZ10(c, "C05.F13")
 		ruleW1(c, "C05.F7")
 		ruleR3(c, "C05.R3")
 		ruleR6(c, "C05.R6")
